@@ -980,6 +980,30 @@ def check_cube_header_pair(ctx, rid):
             ctx.violate(rid, f"cube header: {what} written by _write_cube_header come(s) back as {np.asarray(got).tolist() if got is not None else None}", wh, wh.node, construct=f"cube header: {what}")
             return
     ctx.ok(rid, "cube: title, origin, three (count, step vector) lines and the atom lines (number, core charge, position) written by the header writer are read back by the header reader", f"{wh.module.relpath}:{wh.lineno}")
+    # negative point counts flag a file whose lengths are in angstrom: the reader either refuses such a header or
+    # converts every length; it must not hand the angstrom numbers on as bohr
+    neg = [ln if not (3 <= i <= 5) else ln.replace(ln.split()[0], "-" + ln.split()[0], 1) for i, ln in enumerate(lines)]
+    lit = Rec(licls, filename="F", fh=iter(neg), lineno=0, stack=[])
+    lo_ = prog.format_op("cube", "load_one")
+    neg = neg + [" ".join(f"{0.5 + k:.5E}" for k in range(k0, min(k0 + 6, 24))) + "\n" for k0 in range(0, 24, 6)]
+    lit = Rec(licls, filename="F", fh=iter(neg), lineno=0, stack=[])
+    try:
+        # (the whole loader: the unmodified one refuses such a file when it allocates the grid)
+        ev = AccessorEval(prog, licls, limit=40000)
+        ev.module = lo_.module
+        res3 = ev.run_free(lo_, [lit], {})
+        c3 = res3.get("atcoords") if isinstance(res3, dict) else None
+        cube3 = res3.get("cube") if isinstance(res3, dict) else None
+        org3 = cube3.fields.get("origin") if isinstance(cube3, Rec) else (cube3.get("origin") if isinstance(cube3, dict) else None)
+        same = c3 is not None and np.abs(np.asarray(c3, dtype=float) - atcoords).max() < 1e-9 and org3 is not None and np.abs(np.asarray(org3, dtype=float) - origin).max() < 1e-9
+        if same:
+            ctx.violate(rid, "a cube file with negative point counts (the format's flag for lengths in angstrom) is loaded and its origin / positions are returned unconverted, as if they were bohr", rh, rh.node, construct="cube header: angstrom flag ignored")
+        else:
+            ctx.ok(rid, "cube header with negative point counts: lengths are converted", f"{rh.module.relpath}:{rh.lineno}", sample=False)
+    except Raised:
+        ctx.ok(rid, "cube header with negative point counts (angstrom flavour) is refused", f"{rh.module.relpath}:{rh.lineno}", sample=False)
+    except (NotSymbolic, TypeError, ValueError, AttributeError) as exc:
+        ctx.ok(rid, f"cube header with negative point counts cannot be read ({type(exc).__name__}: {str(exc)[:80]})", f"{rh.module.relpath}:{rh.lineno}", sample=True)
 
 
 def check_poscar_pair(ctx, rid):
